@@ -427,6 +427,32 @@ func r10d(c *core.Ctx) {
 			}
 		}
 		c.Check(ok, "unknown-tag-is-error:"+f, lr.Pos(), lr, "a non-empty `"+strings.ToLower(f)+"` tag that resolves to nothing makes loadRule return an error", "")
+		// ... whatever the rule's other fields say: the error return depends on conditions over this tag only
+		if ok {
+			uncond := false
+			extra := ""
+			for _, ret := range returnsOf(lr) {
+				rs := core.ReturnResults(ret)
+				if core.IsNilConst(rs[1]) {
+					continue
+				}
+				cl := condList(ret.Block())
+				if !(strings.Contains(cl, "[cfg."+f+"] == nil)=true") && strings.Contains(cl, "(len(cfg."+f+") > 0)=true")) {
+					continue
+				}
+				only := true
+				for _, cnd := range core.CondsAt(ret.Block()) {
+					if !strings.Contains(core.Expr(cnd.Cond), "cfg."+f) {
+						only = false
+						extra = core.Expr(cnd.Cond)
+					}
+				}
+				if only {
+					uncond = true
+				}
+			}
+			c.Check(uncond, "unknown-tag-checked-whatever-else:"+f, lr.Pos(), lr, "the unknown-`"+strings.ToLower(f)+"` error depends on that tag only (not on the rule's other fields)", "also conditional on "+extra)
+		}
 	}
 	// initUpstream / loadDomainSet: empty tag and duplicate tag errors dominate the map insert
 	for _, sp := range []struct {
